@@ -274,3 +274,41 @@ def strip_refs(t):
     while t[0] in ("ref", "deref"):
         t = t[1]
     return t
+
+
+_BUILDER_OPS = {}
+
+
+def builder_ops(bv):
+    """RequestBuilder operations a body uses: called directly, inside its closures, or handed on as a function item
+    (`apps.iter().fold(builder, RequestBuilder::add_ping)`)."""
+    import json as _json
+    if bv.id in _BUILDER_OPS and _BUILDER_OPS[bv.id][0] is bv:
+        return _BUILDER_OPS[bv.id][1]
+    names = set()
+    _BUILDER_OPS[bv.id] = (bv, names)
+    todo = [bv]
+    seen = set()
+    from .core import BV
+    while todo:
+        v = todo.pop()
+        if v.id in seen:
+            continue
+        seen.add(v.id)
+        for _, t in v.calls():
+            if (t.get("callee") or "").startswith("request_builder::RequestBuilder"):
+                names.add(t.get("name"))
+        # function items mentioned as values
+        for bi in v.reach0:
+            blob = _json.dumps([v.blocks[bi]["s"], v.blocks[bi]["t"].get("args", [])], default=str)
+            for m in re.finditer(r"request_builder::RequestBuilder::<'[a-z_]+>::(\w+)", blob):
+                names.add(m.group(1))
+        for cb in closures_of(v.crate, v.id):
+            todo.append(BV.of(cb))
+    return names
+
+
+def is_ping_body(bv):
+    """The ping function: builds a request with add_ping but neither add_update_check nor add_event."""
+    ops = builder_ops(bv)
+    return "add_ping" in ops and "add_update_check" not in ops and "add_event" not in ops
